@@ -680,8 +680,8 @@ static void pairs_shard(long shard, void *arg) {
  * 26 domain parts x {as is, upper case, rooted, upper case + rooted} + local-part / degenerate shapes; every ordered pair (A, B) x every ordered
  * pair of (mode, tld_check) configurations, A on one object, B on a second object (and, same configuration, on the same object); B's outcome must
  * be the outcome of B on a fresh object in a fresh library state. */
-static char XP[220][300]; static int NXP; static char *XPWANT[4][2][220];
-static void xp_add(const char *a) { if (NXP < 220) snprintf(XP[NXP++], 300, "%s", a); }
+static char XP[240][300]; static int NXP; static char *XPWANT[4][2][240];
+static void xp_add(const char *a) { if (NXP < 240) snprintf(XP[NXP++], 300, "%s", a); }
 static void xpairs_build(void) {
     static const char *const DOM[26] = { "a.com", "mail.host.com", "a.org", "a.ac", "a.museum", "a.arpa", "example.com", "a.example.org", "a.test", "localhost", "a.localhost", "a.zz", "a.zzzzq",
         "a", "a.xn--p1ai", "xn--80a1acny.xn--p1ai", "\xd0\xb6.\xd1\x80\xd1\x84", "\xd0\xbf\xd0\xbe\xd1\x87\xd1\x82\xd0\xb0.com", "a.b.c.d.e.net", "a-b.com", "1.com", "a.co.uk", "a.onion", "a.invalid", "a.info", "b.de" };
@@ -697,6 +697,9 @@ static void xpairs_build(void) {
     static const char *const OTHER[] = { "x@[1.2.3.4]", "x@[IPv6:::1]", "x@[IPv6:1:2:3:4:5:6:7:8]", "x@[1.2.3.256]", "x@[IPv6:1::2::3]", "x@[1.2.3.4", "x@-a.com", "x@a..com", "x@a.c_m", "x@a.com..",
         "x@\xd0\xb6\xe3\x80\x82" "com", "x@\xc2\xad.com", "x@a\xff.com", "x@xn--a.com", "x@\xef\xbd\x83\xef\xbd\x8f\xef\xbd\x8d.\xef\xbd\x83\xef\xbd\x8f\xef\xbd\x8d", "x@\xe2\x99\xa5.de",
         "\"a b\"@a.com", "a..b@a.com", "\"a\"b@a.com", "\xd0\xb6@a.com", "a\x01@a.com", "\"\"@a.com", " @a.com", "\"a\\ b\"@a.com", "a#b@a.com", "a.b@a.COM", "\"q@r\"@a.Org.",
+        /* one natural input per libidn2 error code, and names on which transitional and non-transitional processing differ */
+        "x@xn--abc.com", "x@xn----abc.com", "x@xn--0.com", "x@\xd7\x90" "a.com", "x@a\xe2\x80\x8d" "b.com", "x@\xcc\x81" "a.com", "x@ab--cd.com", "x@i\xe2\x9d\xa4.ws", "x@xn--i-7iq.ws",
+        "x@\xc3\x9f.de", "x@\xcf\x82.gr", "x@fa\xc3\x9f.de",
         "x@[99999999999999999999.0.2.1]", "x@[1.2.3.99999999999999999999]", "x@[IPv6:::99999999999999999999.1.1.1]",
         "x@example.info", "x@example.co", "x@mail.example.museum", "x@example.nosuchtld", "x@test.com", "x@examples.org",
         "", "@", "x@", "@a.com", "x", "x@@a.com", "abcdefghijklmnopqrstuvwxyzabcdefghijklmnopqrstuvwxyzabcdefghijklm@a.com",
@@ -851,7 +854,7 @@ int main(int argc, char **argv) {
     C_CORPUS = mc_counter("corpus_addresses_through_all_backends");
     if (!strcmp(PROP, "C18corpus")) {
         mc_driver = "C18"; CORPUS_DEEP = mc_thorough; if (corpus_load()) return 2; corpus_objects();
-        static const int PH[] = { CP_TLD, CP_IDN, CP_LONGIDN, CP_ALTDOT, CP_LABELLEN, CP_MAXLIT, CP_LPXDOM, CP_WHOLEDOM, CP_DEPTH, CP_EMBED, CP_EMAIL, CP_DOMAIN, CP_LITERAL, CP_LOCAL, CP_BYTES, CP_CROSS, CP_LONG, CP_SCALARS };
+        static const int PH[] = { CP_TLD, CP_IDN, CP_LONGIDN, CP_ALTDOT, CP_LABELLEN, CP_MAXLIT, CP_LPXDOM, CP_WHOLEDOM, CP_DEPTH, CP_EMBED, CP_SUBST, CP_SHORTLAB, CP_EMAIL, CP_DOMAIN, CP_LITERAL, CP_LOCAL, CP_BYTES, CP_CROSS, CP_LONG, CP_SCALARS };
         policy_build(); mc_parallel("3 backends: all 2^11 allow_tld masks x one address per class x 4 modes", 64, policy_shard, NULL);
         for (unsigned i = 0; i < sizeof PH / sizeof PH[0]; i++) { CURPH = PH[i]; char nm[64]; snprintf(nm, sizeof nm, "3 backends: %.40s", corpus_name(CURPH)); mc_parallel(nm, corpus_shards(CURPH), corpus_shard, NULL); }
         return mc_finish();
